@@ -41,46 +41,10 @@ for _u in list(UNITS.get("C06", [])):
         UNITS.setdefault("C02", []).append(dict(_u, prop="C02", name="bootstrap." + _u["name"]))
 
 
-def _handler(h, t, aggregates, alphas):
-    from pyvc import source
-    from pyvc.interp import ClassRef
-
-    mod = source.module("elexmodel.handlers.data.ModelResults")
-    return ClassRef(mod, mod.classes["ModelResultsHandler"]).instantiate(h.interp, [list(aggregates), list(alphas), t.rep, t.nonrep, t.third], {})
-
-
-@unit("C02", "model_results.unit_table", fns=[f"{MRH}.__init__", f"{MRH}.add_unit_predictions", f"{MRH}.add_unit_intervals"])
-def unit_table(h):
-    alphas = [0.7, 0.9]
-    t = Three(h, "turnout")
-    mr = _handler(h, t, ["postal_code", "unit"], alphas)
-    u = t.root.u
-    pred = V(z3.Function("unit_pred", z3.IntSort(), z3.IntSort())(u), (t.nonrep.axis,), t.nonrep.index)
-    kind, _ = h.call_method(mr, "add_unit_predictions", "turnout", pred)
-    if kind == "raise":
-        return h.fail("add_unit_predictions.no_raise", f"raised {_}")
-    pis = {}
-    bounds = {}
-    for a in alphas:
-        lo = V(z3.Function(f"unit_lower_{a}", z3.IntSort(), z3.IntSort())(u), (t.nonrep.axis,), None)
-        up = V(z3.Function(f"unit_upper_{a}", z3.IntSort(), z3.IntSort())(u), (t.nonrep.axis,), None)
-        pis[a] = NamedTuple("PredictionIntervals", ["lower", "upper", "conformalization"], [lo, up, None])
-        bounds[a] = (lo, up)
-    kind, _ = h.call_method(mr, "add_unit_intervals", "turnout", pis)
-    if kind == "raise":
-        return h.fail("add_unit_intervals.no_raise", f"raised {_}")
-    ud = mr.attrs["unit_data"]["turnout"]
-    facts = z3.And(*t.root.facts())
-    h.ensures("C01.every_unit_exactly_once", z3.Implies(facts, ud.axis.multiplicity() == z3.If(z3.Or(t.R, t.N, t.T), 1, 0)))
-    rows = z3.And(*ud.axis.facts())
-    final = z3.Or(t.R, t.T)
-    for a in alphas:
-        lo_c, up_c = ud.col(f"lower_{a}_turnout"), ud.col(f"upper_{a}_turnout")
-        h.ensures(f"C03.reported_units_are_final[{a}]", z3.Implies(z3.And(rows, final), z3.And(ud.col("pred_turnout").t == t.res, lo_c.t == t.res, up_c.t == t.res)))
-        h.ensures(f"nonreporting_rows_carry_their_own_bounds[{a}]", z3.Implies(z3.And(rows, t.N), z3.And(lo_c.t == bounds[a][0].t, up_c.t == bounds[a][1].t, ud.col("pred_turnout").t == pred.t)))
-    h.ensures("results_column_is_the_live_count", z3.Implies(rows, ud.col("results_turnout").t == t.res))
-    h.ensures("C13.columns", list(ud.cols) == ["postal_code", "geographic_unit_fips", "pred_turnout", "reporting", "unit_category"] + [f"{s}_{a}_turnout" for a in alphas for s in ("lower", "upper")] + ["results_turnout"])
-    h.ensures("sorted_by_unit_id", ud.axis.order == ("sorted", ("geographic_unit_fips",)))
+_handler = C01._handler  # (the ModelResultsHandler unit lives in contracts/C01.py)
+for _u in list(UNITS.get("C01", [])):
+    if _u["name"] == "model_results.unit_table":
+        UNITS.setdefault("C02", []).append(dict(_u, prop="C02"))
 
 
 def _levels(aggname, keys):
